@@ -660,6 +660,11 @@ class DataLinkConnection(TransmissionControlObject):
                 frmr = pdu.FrameReject.from_pdu(rcvd_pdu, flags="I", dlc=self)
             elif rcvd_pdu.ns != self.recv_cnt:
                 frmr = pdu.FrameReject.from_pdu(rcvd_pdu, flags="S", dlc=self)
+            elif self.recv_window_slots == 0:
+                # the peer did not wait for an acknowledgement, taking
+                # the pdu would let recv() see more than RW(L) pdus
+                log.warning("discard I PDU received beyond receive window")
+                return
             if frmr:
                 self.log("reject " + str(self))
                 self.send_queue.clear()
